@@ -28,7 +28,7 @@ def main(P):
 
 
 def run(tier, seed):
-    return e1common.run_property(PROP, MODULE, THEOREMS, tier, seed, 150, 5000, FEATURES, 'hits', extra_cases=[PADCOLLIDE, e1common.FIXED_TWIN, e1common.FIXED_REREG])
+    return e1common.run_property(PROP, MODULE, THEOREMS, tier, seed, 150, 20000, FEATURES, 'hits', extra_cases=[PADCOLLIDE, e1common.FIXED_TWIN, e1common.FIXED_REREG])
 
 
 def replay(path):
